@@ -692,6 +692,9 @@ def hash_order(rep, lib, rid="C11-HASH-ORDER"):
                 tgt = " ".join(c.gargs or []) + " " + (c.dest.get("ty") or "")
                 # the target collection is the last generic argument of collect
                 g = (c.gargs or [""])[-1]
+                if cal.endswith("Extend::extend"):
+                    g = (c.gargs or [""])[0]        # the collection that is extended is Self
+                g = g.replace("&mut ", "").replace("&", "").strip()
                 if re.match(r"std::collections::(HashMap|HashSet|BTreeMap|BTreeSet)<", g):
                     r.ok(key, "collected into %s" % g[:60], c.where())
                 else:
